@@ -16,7 +16,9 @@ Families
                     get_input for nine model kinds x hedge lists, compute_loss/price/fit on a scripted
                     simulate x criteria, BS module methods and WhalleyWilmott with None -> derivative
                     buffers and with explicit tensors, autogreek on the series, feature binding
-                    independence.  All buffers of all instruments of the world and all caller tensors
+                    independence, access order (one bound feature / feature list / ModuleOutput / hedger asked for
+                    time steps along a de Bruijn word over {None,0..T-1}: every pair (quick) or triple (thorough)
+                    of consecutive requests, each value == the same request on a freshly bound object).  All buffers of all instruments of the world and all caller tensors
                     are snapshotted before/after each call; each call is made twice (same result).
   histories         bfs over operation histories on one hedger (five variants) with three derivatives
                     (different underlier types, path counts, dtypes, lengths); per transition the frame rule,
@@ -128,9 +130,12 @@ def _run_call(ctx, spec, block, dtype, form, zoo=None):
         if expect is not None and not raised:
             want = expect()
             if not W.same_result(out1, want):
-                violation(site, prepared.get("expect_class", "differs_from_fresh"),
-                          f"{label}: {prepared.get('expect_msg', 'result differs from the independent evaluation')}",
-                          observed=W.describe(out1), expected=W.describe(want), block=mini)
+                msg, obs, exp = prepared.get("expect_msg", "result differs from the independent evaluation"), out1, want
+                if prepared.get("first_diff"):
+                    key = next(k for k in want if not W.same_result(out1.get(k), want[k]))
+                    msg, obs, exp = msg + f"{key} after {list(want)[:list(want).index(key)][-3:]}", out1[key], want[key]
+                violation(site, prepared.get("expect_class", "differs_from_fresh"), f"{label}: {msg}",
+                          observed=W.describe(obs), expected=W.describe(exp), block=mini)
         if not mutated and not raised and not spec["nondet"]:
             try:
                 out2 = thunk()
@@ -432,6 +437,27 @@ def pure_calls_family(ctx, block):
 # family 2: the call matrix on instruments
 # ----------------------------------------------------------------------------
 
+def access_sequence(symbols, order):
+    """Linearised de Bruijn word: every `order`-tuple over the symbols occurs as consecutive requests."""
+    k = len(symbols)
+    a = [0] * (k * order)
+    word = []
+
+    def db(t, p):
+        if t > order:
+            if order % p == 0:
+                word.extend(a[1:p + 1])
+        else:
+            a[t] = a[t - p]
+            db(t + 1, p)
+            for j in range(a[t - p] + 1, k):
+                a[t] = j
+                db(t + 1, t)
+    db(1, 1)
+    word = word + word[:order - 1]
+    return [symbols[i] for i in word]
+
+
 def _features_for(z):
     """(label, site, factory of an unbound feature) for every feature applicable to the zoo's derivative
     (listed-price features are handled with the pricers)."""
@@ -542,10 +568,82 @@ def zoo_calls(z, seed, tier="quick"):
         for flabel, mkf in (("underlier_spot", lambda: PF.UnderlierSpot()), ("underlier_log_spot", lambda: PF.UnderlierSpot(log=True))):
             add("ModuleOutput.get", f"ModuleOutput(Identity,[{flabel}]).get({t})",
                 lambda c, t=t, mkf=mkf: (lambda mo=PF.ModuleOutput(torch.nn.Identity(), [mkf()]).of(d): mo.get(t)))
-    # -- binding independence ---------------------------------------------------------------------------------------------------------------
     d2 = z.d2 = getattr(z, "d2", None) or market.derivative(
         z.dkind, z.p2, T=T, **({"strike": 0.0625} if z.dkind == "variance_swap" else
                                {"strike": 1.125, "start": market.DT} if z.dkind == "forward_start" else {"strike": 1.5}))
+    # -- access order: one bound object, time steps requested in every order ----------------------------------------------------
+    # the request sequence is a de Bruijn word over {None, 0..T-1}: every pair (quick) / triple (thorough) of
+    # consecutive requests occurs - descending, skipping, repeated, restarting anywhere, interleaved with get(None);
+    # every value must equal the same request on a freshly bound object
+    seq = access_sequence([None] + list(range(T)), 2 if tier == "quick" else 3)
+
+    def order_spec(site, label, mk_bound, listed_by=None):
+        def prep(c):
+            if listed_by is not None:
+                d.list(listed_by, cost=1 / 128)
+
+            def thunk():
+                f = mk_bound()
+                return {f"#{k} get({i})": f.get(i).detach() for k, i in enumerate(seq)}
+
+            def expect():
+                fresh = {}
+                for i in seq:
+                    if i not in fresh:
+                        fresh[i] = mk_bound().get(i).detach()
+                return {f"#{k} get({i})": fresh[i] for k, i in enumerate(seq)}
+            return {"thunk": thunk, "expect": expect, "expect_class": "depends_on_access_order",
+                    "expect_msg": "get(i) on one bound object depends on which time steps were requested before "
+                                  "(differs from a freshly bound object); first difference: ", "first_diff": True}
+        add(site, label, prep)
+
+    for label, site, mk in feats:
+        if label != "empty":
+            order_spec(site, f"order:{label}", lambda mk=mk: mk().of(d))
+    for pname in ("buffer", "convex"):
+        order_spec("Spot.get", f"order:listed[{pname}].Spot", lambda: PF.Spot().of(d), listed_by=W.pricers(z)[pname])
+        order_spec("Spot(log=True).get", f"order:listed[{pname}].Spot(log=True)", lambda: PF.Spot(log=True).of(d),
+                   listed_by=W.pricers(z)[pname])
+    order_spec("FeatureList.get", "order:FeatureList", lambda: PF.FeatureList(list(_state_independent_inputs(z))).of(d))
+    order_spec("ModuleOutput.get", "order:ModuleOutput(Linear)",
+               lambda: PF.ModuleOutput(W.generic_linear(len(_state_independent_inputs(z)), 2, seed, z.dtype, tag=11),
+                                       list(_state_independent_inputs(z))).of(d))
+    order_spec("ModuleOutput.get", "order:ModuleOutput(Identity,[Barrier])",
+               lambda: PF.ModuleOutput(torch.nn.Identity(), [PF.Barrier(z.K, up=True), PF.Barrier(z.K, up=False)]).of(d))
+    # the same through a hedger: get_input(d, i) in every order, on one hedger (a ModuleOutput input binds in place
+    # and so carries its bound features from call to call) vs a fresh hedger per request
+    for mv in ("linear", "modout", "mlp"):
+        def prep_h(c, mv=mv):
+            def hedger():
+                sis = list(_state_independent_inputs(z))
+                if mv == "modout":
+                    mo = PF.ModuleOutput(W.generic_linear(len(sis), 2, seed, z.dtype, tag=14), sis)
+                    return nn.Hedger(W.generic_linear(3, 1, seed, z.dtype, tag=15), [mo, "underlier_spot"])
+                if mv == "mlp":
+                    return nn.Hedger(_fill(nn.MultiLayerPerceptron(len(sis), 1, n_layers=1, n_units=3), seed, z.dtype), sis)
+                return nn.Hedger(W.generic_linear(len(sis), 1, seed, z.dtype, tag=12), sis)
+
+            def thunk():
+                h = hedger()
+                out = {}
+                for k, i in enumerate(seq):
+                    out[f"#{k} get_input(d,{i})"] = h.get_input(d, i).detach()
+                    if k % 5 == 4:
+                        h.get_input(d2, 1)               # interleaved with another derivative
+                return out
+
+            def expect():
+                fresh = {}
+                for i in seq:
+                    if i not in fresh:
+                        fresh[i] = hedger().get_input(d, i).detach()
+                return {f"#{k} get_input(d,{i})": fresh[i] for k, i in enumerate(seq)}
+            return {"thunk": thunk, "expect": expect, "expect_class": "depends_on_access_order",
+                    "expect_msg": "get_input(d, i) on one hedger depends on which time steps were requested before "
+                                  "(differs from a fresh hedger with the same parameters); first difference: ",
+                    "first_diff": True}
+        add("Hedger.get_input", f"order:Hedger[{mv}].get_input", prep_h)
+    # -- binding independence ---------------------------------------------------------------------------------------------------------------
     for label, site, mk in feats:
         if label == "empty":
             continue
@@ -960,18 +1058,21 @@ def run(ctx):
     ctx.rule("call matrix: every (call, world) pair - calls = the public computations listed in the module docstring, "
              "worlds = primary type x derivative type (x dtype) holding all joint paths over the alphabets, pure "
              "functions x dtype x {leaf, view-into-base} argument form; every instrument buffer and caller tensor is "
-             "compared bitwise (values, dtype, shape, storage) before/after, each call is made twice; non-trivial = the "
+             "compared bitwise (values, dtype, shape, storage) before/after, each call is made twice; bound features, lists, "
+             "ModuleOutputs and hedgers are asked for time steps along a de Bruijn word (all pairs|triples of consecutive "
+             "requests over {None,0..T-1}) and must answer like a freshly bound object; non-trivial = the "
              "call's result carries a finite non-zero number (it read the data). histories: breadth-first over all "
              "operation sequences up to the depth from the empty and the all-simulated initial history, deduplicated by "
              "(per derivative: declared dtype, buffer names/shapes/dtypes; hedger: parameter dtype, prev_output "
-             "shape/dtype, training flag, derivative a shared ModuleOutput is bound to; names of all attributes stored on "
-             "hedger, model, derivatives, underliers); every transition is executed on real objects "
+             "shape/dtype, training flag, derivative a shared ModuleOutput is bound to and the last time step its bound "
+             "features were asked for; names of all attributes stored on hedger, model, derivatives, underliers); every transition is executed on real objects "
              "and checked (frame rule, parameter frame, two fresh-hedger differentials); non-trivial = query "
              "transitions with a data-dependent result")
     ctx.assume("abstract states merged by canon() have the same futures w.r.t. the property: control flow of pfhedge "
                "does not branch on series or parameter values, and both differential oracles copy the live values")
-    ctx.assume("requires_grad_() switched on by autogreek on a caller tensor or on a series handed to it changes no value: "
-               "counted (requires_grad_set_on_*), not a mutation")
+    ctx.assume("a requires_grad flag switched on by autogreek on a caller tensor or on an instrument series changes no value: "
+               "it would be counted (requires_grad_set_on_caller_tensor / requires_grad_set_on_buffer@site), not reported; "
+               "fixed in /repo by 6febe5a - the counters are absent (0) on the current tree")
     ctx.assume("ModuleOutput.of rebinds in place by design (it returns self): holding a bound ModuleOutput across a "
                "rebinding is outside the property; the hedger rebinds before every use, which the histories exercise")
     ctx.assume("values of the 'empty' feature are uninitialised memory: only side effects are checked for it")
